@@ -20,6 +20,19 @@ theorem mem_addOwner_self (l : List ORef) (r : ORef) : r ∈ addOwner l r := by
     · simp
     · exact List.mem_cons_of_mem _ ih
 
+/-- after `meta.AddOwnerReference(o, r)` the first entry carrying `r`'s uid is `r` -/
+theorem find_addOwner_self (l : List ORef) (r : ORef) :
+    (addOwner l r).find? (fun x => x.uid = r.uid) = some r := by
+  induction l with
+  | nil => simp [addOwner]
+  | cons y ys ih =>
+    unfold addOwner
+    split
+    · simp
+    · rename_i hne
+      rw [List.find?_cons]
+      simp [hne, ih]
+
 theorem mem_addOwner (l : List ORef) (r x : ORef) (h : x ∈ addOwner l r) : x = r ∨ x ∈ l := by
   induction l with
   | nil => simp [addOwner] at h; exact Or.inl h
